@@ -16,30 +16,31 @@ import (
 // restart of B, as a lagging replica that gets the snapshot installed, or -
 // on-disk - as the target of a streamed snapshot) and is fed the rest.
 type twinRun struct {
-	env      *caseEnv
-	kind     smKind
-	limit    int
-	ents     []pb.Entry
-	meta     []entMeta
-	boot     int
-	k, m, n  uint64
-	variant  string // restart | install | stream
-	a, b, c  *replica
-	cInc     *incarnation // incarnation of C that recovered the snapshot
-	model    *sessModel
-	verdicts []verdict
-	refAt    []kv
-	viewA    map[uint64]view
-	viewC    map[uint64]view
-	ssIndex  uint64 // index of the snapshot C recovered (0: none)
-	lagAt    uint64 // install/stream: what C had applied before
-	feedFrom uint64 // first index handed to C after the recovery
-	openIdx  uint64 // on-disk restart: what Open returned
-	raced    int
-	metaA    savedMeta
-	metaC    savedMeta
-	sessA    []byte
-	sessC    []byte
+	env           *caseEnv
+	kind          smKind
+	limit         int
+	ents          []pb.Entry
+	meta          []entMeta
+	boot          int
+	k, m, n       uint64
+	variant       string // restart | install | stream
+	a, b, c       *replica
+	cInc          *incarnation // incarnation of C that recovered the snapshot
+	model         *sessModel
+	verdicts      []verdict
+	refAt         []kv
+	viewA         map[uint64]view
+	viewC         map[uint64]view
+	ssIndex       uint64 // index of the snapshot C recovered (0: none)
+	lagAt         uint64 // install/stream: what C had applied before
+	feedFrom      uint64 // first index handed to C after the recovery
+	openIdx       uint64 // on-disk restart: what Open returned
+	raced         int
+	secondRestart bool
+	metaA         savedMeta
+	metaC         savedMeta
+	sessA         []byte
+	sessC         []byte
 }
 
 func (r *replica) addSync() { r.cur.sm.TaskQ().Add(rsm.Task{PeriodicSync: true}) }
@@ -91,20 +92,60 @@ func runTwins(t *rapid.T) *twinRun {
 		// runs of NoOP-session proposals: the batched update path of concurrent SMs
 		o.wNoop = 40
 	}
+	o.wDupCur, o.wDupStale = 18, 12
 	g := newStreamGen(o)
+	// the generator looks at the membership the way a client would before it
+	// asks for a change (SyncGetShardMembership): a planner replica applies
+	// every entry as soon as it exists
+	planner := newReplica(env, "P", 9)
+	planner.start()
+	g.memFn = func() pb.Membership { return planner.cur.sm.GetMembership() }
+	g.ccidFn = func() uint64 { return planner.cur.sm.GetMembership().ConfigChangeId }
+	fedP := 0
+	plan := func() {
+		if fedP < len(g.ents) {
+			planner.add(g.ents[fedP:])
+			planner.run()
+			fedP = len(g.ents)
+		}
+	}
 	g.bootstrap(t)
+	plan()
 	nGen := sizeOf(t)
 	for i := 0; i < nGen; i++ {
 		g.step(t)
+		plan()
 	}
 	tr.ents, tr.meta, tr.boot = g.ents, g.meta, o.boot
 	ents := tr.ents
 	tr.n = uint64(len(ents))
 	tr.k = uint64(rapid.IntRange(o.boot, int(tr.n)).Draw(t, "k"))
+	if rapid.Bool().Draw(t, "kInWindow") {
+		// aim the cut between two copies of the same client entry
+		type win struct{ lo, hi uint64 }
+		var wins []win
+		firstCopy := map[int]uint64{}
+		for i, em := range tr.meta {
+			if em.Kind != ekProposal {
+				continue
+			}
+			if f, ok := firstCopy[em.Tmpl]; ok {
+				if uint64(i) >= f && f >= uint64(o.boot) {
+					wins = append(wins, win{f, uint64(i)})
+				}
+			} else {
+				firstCopy[em.Tmpl] = uint64(i + 1)
+			}
+		}
+		if len(wins) > 0 {
+			w := wins[rapid.IntRange(0, len(wins)-1).Draw(t, "kWindow")]
+			tr.k = uint64(rapid.IntRange(int(w.lo), int(w.hi)).Draw(t, "kIn"))
+		}
+	}
 
 	variants := []string{"restart", "restart", "install"}
 	if tr.kind == kOnDisk {
-		variants = []string{"restart", "restart", "stream"}
+		variants = []string{"restart", "stream"}
 	}
 	tr.variant = variants[rapid.IntRange(0, len(variants)-1).Draw(t, "variant")]
 
@@ -121,14 +162,15 @@ func runTwins(t *rapid.T) *twinRun {
 		}
 		c.start()
 		tr.lagAt = uint64(rapid.IntRange(0, int(tr.k)-1).Draw(t, "lagAt"))
-		feedTo(t, c, ents, tr.lagAt, "c0")
+		lagHold := tr.variant == "install" && rapid.Bool().Draw(t, "lagHold")
+		feedHold(t, c, ents, tr.lagAt, "c0", lagHold)
 		if tr.kind == kOnDisk && tr.lagAt > 0 && rapid.Bool().Draw(t, "lagSync") {
 			c.addSync()
 			c.run()
 		}
 	}
-	feedTo(t, b, ents, tr.k, "b")
-	cutc := cut{At: tr.k, Kind: "save"}
+	cutc := cut{At: tr.k, Kind: "save", Hold: rapid.Bool().Draw(t, "cutHold")}
+	feedHold(t, b, ents, tr.k, "b", cutc.Hold && tr.variant != "stream")
 	if rapid.Bool().Draw(t, "cutRaces") {
 		cutc.Race = rapid.IntRange(1, 5).Draw(t, "cutRace")
 	}
@@ -239,6 +281,16 @@ func runTwins(t *rapid.T) *twinRun {
 	}
 	feedTo(t, c, ents, tr.m, "c")
 	tr.viewC[tr.m] = c.view()
+	if rapid.IntRange(0, 2).Draw(t, "secondRestart") == 0 {
+		// C goes down once more and comes back from whatever snapshot its LogDB
+		// knows (on-disk after a streamed snapshot: the shrunk file)
+		if tr.kind == kOnDisk && rapid.Bool().Draw(t, "cSync") {
+			c.addSync()
+			c.run()
+		}
+		c.restart(drawCrashPos(t, c, "c2"))
+		tr.secondRestart = true
+	}
 	feedTo(t, c, ents, tr.n, "c")
 	tr.viewC[tr.n] = c.view()
 
@@ -315,7 +367,7 @@ func (tr *twinRun) retryWindowCut() (cached, acked, other int) {
 
 func (tr *twinRun) canon() []byte {
 	var b bytes.Buffer
-	fmt.Fprintf(&b, "%v/%d/%v/%v/%t|%s|k=%d m=%d %s lag=%d from=%d open=%d raced=%d", tr.kind, tr.limit,
+	fmt.Fprintf(&b, "%t|%v/%d/%v/%v/%t|%s|k=%d m=%d %s lag=%d from=%d open=%d raced=%d", tr.secondRestart, tr.kind, tr.limit,
 		tr.env.cfg.SnapshotCompressionType, tr.env.cfg.EntryCompressionType, tr.env.cfg.OrderedConfigChange,
 		canonStream(tr.meta), tr.k, tr.m, tr.variant, tr.lagAt, tr.feedFrom, tr.openIdx, tr.raced)
 	return b.Bytes()
@@ -339,6 +391,12 @@ func (tr *twinRun) labels() []string {
 	if tr.kind == kOnDisk && tr.variant == "restart" && tr.openIdx == tr.ssIndex {
 		l = append(l, "ondisk-open-index-equals-snapshot")
 	}
+	if tr.secondRestart {
+		l = append(l, "C-restarted-again")
+		if tr.kind == kOnDisk && tr.variant == "stream" && tr.ssIndex > 0 {
+			l = append(l, "ondisk-restart-on-shrunk-snapshot")
+		}
+	}
 	if tr.variant != "restart" && tr.lagAt > 0 {
 		l = append(l, "C-lagging-not-fresh")
 	}
@@ -354,8 +412,8 @@ func (tr *twinRun) labels() []string {
 			}
 		}
 	}
-	if ccAfter > 0 {
-		l = append(l, "cc-after-snapshot")
+	if ccAfter > ccRejAfter {
+		l = append(l, "cc-accepted-after-snapshot")
 	}
 	if ccRejAfter > 0 {
 		l = append(l, "cc-rejected-after-snapshot")
@@ -386,6 +444,7 @@ func (tr *twinRun) sample(extra map[string]interface{}) map[string]interface{} {
 		"k": tr.k, "snapshot_index": tr.ssIndex, "m": tr.m, "n": tr.n,
 		"C_lagging_at": tr.lagAt, "C_fed_from": tr.feedFrom, "ondisk_open_index": tr.openIdx,
 		"updates_between_prepare_and_save": tr.raced,
+		"C_restarted_again_at_m":           tr.secondRestart,
 		"snapshot_compression":             fmt.Sprint(tr.env.cfg.SnapshotCompressionType),
 		"entries":                          renderStream(tr.ents, tr.meta, 60),
 	}
@@ -393,4 +452,48 @@ func (tr *twinRun) sample(extra map[string]interface{}) map[string]interface{} {
 		out[k] = v
 	}
 	return out
+}
+
+// checkIncarnation compares one incarnation of a twin with the uninterrupted
+// twin A and the session model: every entry it had to process has A's outcome
+// (entries an on-disk SM already contains are applied silently), and its user
+// SM was handed exactly the entries the model demands among those.
+func (tr *twinRun) checkIncarnation(t *rapid.T, r *replica, inc *incarnation, prefix string) {
+	who := fmt.Sprintf("%s/inc%d(%s,%s,snapshot %d)", r.name, inc.id, tr.kind, tr.variant, tr.ssIndex)
+	proc, _ := inc.processed()
+	for idx := uint64(1); idx <= tr.n; idx++ {
+		ao, co := tr.a.cur.node.byIndex[idx], inc.node.byIndex[idx]
+		if !proc[idx] {
+			if len(co) > 0 {
+				vfhelp.Fail(t, prefix+"-outcome-for-skipped-entry", "%s restored at %d reported %v for index %d it never had to apply", who, inc.startAt, co, idx)
+			}
+			continue
+		}
+		if tr.kind == kOnDisk && idx <= inc.openIndex && tr.meta[idx-1].Kind == ekNoopSession {
+			if len(co) > 0 {
+				vfhelp.Fail(t, prefix+"-ondisk-outcome-below-open", "%s: index %d <= Open index %d reported %v", who, idx, inc.openIndex, co)
+			}
+			continue
+		}
+		if len(ao) != len(co) || (len(ao) == 1 && !sameOutcome(ao[0], co[0])) {
+			vfhelp.Fail(t, prefix+"-outcome-differs", "%s: index %d %v: A %v, here %v", who, idx, tr.meta[idx-1], ao, co)
+		}
+	}
+	var want []upd
+	for _, u := range tr.model.applied {
+		if proc[u.Index] && u.Index > inc.openIndex {
+			want = append(want, u)
+		}
+	}
+	if sig, msg := checkDeliveries(inc.usm.pr().updates, want); sig != "" {
+		vfhelp.Fail(t, prefix+"-"+sig, "%s restored at %d, Open index %d: %s", who, inc.startAt, inc.openIndex, msg)
+	}
+}
+
+func (tr *twinRun) replicas() []*replica {
+	reps := []*replica{tr.a, tr.b}
+	if tr.c != tr.b {
+		reps = append(reps, tr.c)
+	}
+	return reps
 }
